@@ -41,9 +41,18 @@ def args_match(got, want):
             if not (isinstance(g, tuple) and g[0] == 'c' and g[2] == w):
                 return False
         else:
-            if g != w:
+            if g != w and not _same_value(g, w):
                 return False
     return True
+
+
+def _same_value(g, w):
+    """operand terms denote the same function of the operand bytes (any spelling)"""
+    from ..terms import Env
+    from .. import bvproof
+    if not (isinstance(g, tuple) and g and g[0] in ('c', 's', 'o') and g[1] and g[1] == w[1]):
+        return False
+    return bvproof.equal_under(g, w, Env(), g[1]) is True
 
 
 def run(ctx, chk):
